@@ -936,6 +936,41 @@ func refFlow(r *Run, wantHF, wantImg bool) {
 			}
 		})
 	}
+	// a function that merely forwards one of its own parameters to a reference helper is a
+	// reference helper itself (addHeaderReference(kind, id) → sectPr.setHeaderReference(kind, id))
+	forwarding := map[ssa.Instruction]bool{}
+	for changed := true; changed; {
+		changed = false
+		for _, fn := range p.ModFuncs() {
+			allInstrs(fn, func(in ssa.Instruction) {
+				c, ok := in.(ssa.CallInstruction)
+				if !ok {
+					return
+				}
+				cal := staticCallee(c)
+				for _, h := range helpers {
+					if h.fn != cal || h.pi >= len(c.Common().Args) {
+						continue
+					}
+					pi := paramIndex(fn, c.Common().Args[h.pi])
+					if pi < 0 {
+						continue
+					}
+					forwarding[in] = true
+					known := false
+					for _, h2 := range helpers {
+						if h2.fn == fn && h2.pi == pi {
+							known = true
+						}
+					}
+					if !known {
+						helpers = append(helpers, helper{fn, pi, h.kind})
+						changed = true
+					}
+				}
+			})
+		}
+	}
 	if !wantHF {
 		helpers = nil
 	} else {
@@ -963,6 +998,9 @@ func refFlow(r *Run, wantHF, wantImg bool) {
 				}
 				if dyn[h.fn] && h.pi >= len(c.Common().Args) {
 					continue
+				}
+				if forwarding[in] {
+					continue // the obligation lies with the callers of the forwarding function
 				}
 				nSites++
 				arg := c.Common().Args[h.pi]
@@ -1511,11 +1549,41 @@ func ruleKeyedInsert(r *Run, only map[string]bool) {
 						}
 						for _, cv := range cands {
 							var foundSuccs []struct{ from, to *ssa.BasicBlock }
-							if _, isBool := cv.Type().Underlying().(*types.Basic); isBool {
+							if bt, isBasic := cv.Type().Underlying().(*types.Basic); isBasic {
 								if cv.Referrers() != nil {
 									for _, u := range *cv.Referrers() {
 										if iff, ok := u.(*ssa.If); ok {
 											foundSuccs = append(foundSuccs, struct{ from, to *ssa.BasicBlock }{iff.Block(), iff.Block().Succs[0]})
+										}
+										// an index result: found means i >= 0 (i != -1, !(i < 0), !(i == -1))
+										cmp, ok := u.(*ssa.BinOp)
+										if !ok || bt.Info()&types.IsInteger == 0 || cmp.X != cv || cmp.Referrers() == nil {
+											continue
+										}
+										k, isK := constInt(cmp.Y)
+										if !isK {
+											continue
+										}
+										foundOnTrue, known := false, true
+										switch {
+										case cmp.Op == token.GEQ && k == 0, cmp.Op == token.GTR && k == -1, cmp.Op == token.NEQ && k == -1:
+											foundOnTrue = true
+										case cmp.Op == token.LSS && k == 0, cmp.Op == token.LEQ && k == -1, cmp.Op == token.EQL && k == -1:
+											foundOnTrue = false
+										default:
+											known = false
+										}
+										if !known {
+											continue
+										}
+										for _, u2 := range *cmp.Referrers() {
+											if iff, ok := u2.(*ssa.If); ok {
+												to := iff.Block().Succs[0]
+												if !foundOnTrue {
+													to = iff.Block().Succs[1]
+												}
+												foundSuccs = append(foundSuccs, struct{ from, to *ssa.BasicBlock }{iff.Block(), to})
+											}
 										}
 									}
 								}
